@@ -512,6 +512,11 @@ func (in *Interp) convert(v Value, from, to types.Type) Value {
 		}
 		w := width(to)
 		if w == SortInt {
+			// to int/int64: narrower sources extend by their own signedness; a 64-bit
+			// source is reinterpreted as two's complement
+			if t.w == 64 {
+				return BV2Int(t, true)
+			}
 			return BV2Int(t, isSigned(from))
 		}
 		if t.w == SortInt {
